@@ -151,11 +151,37 @@ Definition add_blob (b : blob) (d : db) : db :=
        (sblobs d) (streams d) (files d)
        (if mem (b_hash b) (disk d) then disk d else disk d ++ [b_hash b]).
 
+(* BlobManager.setup(): sync_missing_blobs marks finished rows without a file 'pending'; ensure_completed_blobs_status
+   re-registers every file found on disk through storage.add_blobs((hash, file size, now, is_mine=False), finished=True):
+   an existing row becomes finished and KEEPS its length, added_on and is_mine; a file without a row gets a new row *)
+Definition setup_row (dk : list N) (b : blob) : blob :=
+  mkBlob (b_hash b) (b_len b) (b_added b) (b_mine b) (mem (b_hash b) dk).
+Definition fsize (sizes : list (N * N)) (h : N) : N :=
+  match find (fun x => fst x =? h) sizes with Some x => snd x | None => 0 end.
+Fixpoint add_orphans (now : N) (sizes : list (N * N)) (hs : list N) (bl : list blob) : list blob :=
+  match hs with
+  | [] => bl
+  | h :: r => add_orphans now sizes r
+                (if mem h (map b_hash bl) then bl else bl ++ [mkBlob h (fsize sizes h) now false true])
+  end.
+Definition setup (now : N) (sizes : list (N * N)) (d : db) : db :=
+  mkDb (add_orphans now sizes (disk d) (map (setup_row (disk d)) (blobs d))) (sblobs d) (streams d) (files d) (disk d).
+
+Definition hide_files (hs : list N) (d : db) : db :=
+  mkDb (blobs d) (sblobs d) (streams d) (files d) (filter (fun h => negb (mem h hs)) (disk d)).
+Fixpoint restore_list (hs dk : list N) : list N :=
+  match hs with [] => dk | h :: r => restore_list r (if mem h dk then dk else dk ++ [h]) end.
+Definition restore_files (hs : list N) (d : db) : db :=
+  mkDb (blobs d) (sblobs d) (streams d) (files d) (restore_list hs (disk d)).
+
 Inductive op :=
 | OpPass (net : bool) (limit : Z)
 | OpClean (climit nlimit : Z)
 | OpAdd (b : blob)
 | OpDelete (hs : list N)      (* the user removes blobs through the API: blob_manager.delete_blobs(hs, delete_from_db=True) *)
+| OpHide (hs : list N)        (* blob files become invisible (blob directory unavailable, files moved away) *)
+| OpRestore (hs : list N)     (* blob files are (back) in the blob directory *)
+| OpSetup (now : N) (sizes : list (N * N))   (* a restart: BlobManager.setup(); [sizes] = size of each blob file *)
 | OpStatus.                   (* a status read (get_space_used_mb / get_free_space_mb): no effect on the database;
                                  the pass recomputes usage itself every time, the model has no cache *)
 
@@ -173,6 +199,9 @@ Fixpoint run (ops : list op) (d : db) : list (list N) * db :=
       let (tr, d2) := run r (add_blob b d) in (tr, d2)
   | OpDelete hs :: r =>
       let (tr, d2) := run r (remove_hashes hs d) in (tr, d2)
+  | OpHide hs :: r => run r (hide_files hs d)
+  | OpRestore hs :: r => run r (restore_files hs d)
+  | OpSetup now sizes :: r => run r (setup now sizes d)
   | OpStatus :: r => run r d
   end.
 
@@ -182,6 +211,13 @@ Fixpoint user_deleted (ops : list op) : list N :=
   | [] => []
   | OpDelete hs :: r => hs ++ user_deleted r
   | _ :: r => user_deleted r
+  end.
+(* files somebody moved out of the blob directory during a history *)
+Fixpoint hidden (ops : list op) : list N :=
+  match ops with
+  | [] => []
+  | OpHide hs :: r => hs ++ hidden r
+  | _ :: r => hidden r
   end.
 
 (* ---- quantities the theorems speak about ---- *)
